@@ -21,7 +21,9 @@ REPO = os.environ.get("LEXPR_REPO", "/repo")
 WORK = os.path.join(VERIF, ".work")
 KANI_DIR = os.path.join(VERIF, "kani")
 REPLAY_DIR = os.path.join(VERIF, "replays")
-EVID_DIR = os.path.join(VERIF, "evidence")
+# VERIF_EVIDENCE_DIR: set by the seeding scripts (bin/seedtest, bin/selfmut) so that runs against a deliberately
+# broken /repo never overwrite the evidence record of the unchanged tree; the registered commands do not set it
+EVID_DIR = os.environ.get("VERIF_EVIDENCE_DIR") or os.path.join(VERIF, "evidence")
 KF_FILE = os.path.join(VERIF, "known_findings.json")
 
 ENV = dict(os.environ)
@@ -344,7 +346,7 @@ def write_evidence(prop, tier, seed, level, coverage, assumptions, wall_s, viola
     # partial runs (--only / --no-e1 / --no-e2) are development aids: their record goes to .work, never to evidence/
     ddir = EVID_DIR
     if prop.endswith("_partial"):
-        ddir = os.path.join(os.path.dirname(EVID_DIR), ".work", "partial")
+        ddir = os.path.join(WORK, "partial")
         prop_id = prop[:-len("_partial")]
     else:
         prop_id = prop
